@@ -144,6 +144,8 @@ func FuzzC12Decode(f *testing.F) {
 			for _, io := range []iface.IO{cborIO, pbIO} {
 				_, _ = ipfslog.NewFromEntryHash(ctx, store.API(), world.Identity(0), hc, &ipfslog.LogOptions{ID: "verif-log", IO: io}, &ipfslog.FetchOptions{})
 				_, _ = ipfslog.NewFromMultihash(ctx, store.API(), world.Identity(0), hc, &ipfslog.LogOptions{ID: "verif-log", IO: io}, &ipfslog.FetchOptions{})
+				_, _ = ipfslog.NewFromEntryHash(ctx, store.API(), world.Identity(0), hc, &ipfslog.LogOptions{IO: io}, &ipfslog.FetchOptions{})
+				_, _ = ipfslog.NewFromMultihash(ctx, store.API(), world.Identity(0), hc, &ipfslog.LogOptions{IO: io}, &ipfslog.FetchOptions{})
 			}
 			_, _ = entry.FromMultihash(ctx, store.API(), hc, provider)
 		})
